@@ -26,6 +26,10 @@ from .common import (ROOT, CORPUS, coq_Z, coq_bool, coq_list, coq_nat, coq_opt,
 
 PID = "C14"
 SHARD = 100
+FP_CLASH = "fms-duplicate-key-clash-loses-mode"
+FP_NONE = "mode-name-None-shadowed"
+KNOWN_FPS = (FP_CLASH, FP_NONE)
+WITNESSES = ("01_fms_key_clash_loses_mode.json", "02_mode_called_None_default.json")
 
 # ---------------------------------------------------------------------------
 # generator
@@ -818,9 +822,9 @@ def oracle(case, obs, base):
         if not any_fault and raised:
             v.append(("raised-without-fault", "no FMS, fault-free layout, constructor raised %s" % obs["exc"]))
     else:
-        if raised and not initfail:
+        if raised:
             v.append(("fms-raised", "FMS attached but the constructor raised %s" % obs["exc"]))
-    if raised or initfail:
+    if raised:
         return v
     # instantiated exactly once each
     want = sorted(ident(s, c) for s, c in need)
@@ -830,8 +834,25 @@ def oracle(case, obs, base):
         extra = [x for x in got if x not in want or got.count(x) > 1]
         v.append(("instantiation-set", "constructor calls differ from the classes with MODE_NAME and not DISABLED: "
                   "missing %s, unexpected/repeated %s" % (missing[:3], extra[:3])))
-    clash = "None" in names or "" in names or key_clash(case, base)   # outside the property's reach, see notes
     modes = {k: i for k, i in obs["modes"]}
+    # the two open findings (known_findings.json) get their own fingerprints; the generic clauses below are
+    # not evaluated on such layouts, so that one root cause is reported once
+    shadow = [(s, c) for s, c in healthy if c["mode"] in ("None", "")]
+    kclash = key_clash(case, base)
+    clash = bool(shadow) or kclash
+    if shadow:
+        s0, c0 = shadow[0]
+        distinct = len(set(obs["options"]))
+        if c0["mode"] == "" or distinct < len(modes) + 1:
+            v.append((FP_NONE, "mode %s.%s has MODE_NAME %r: the chooser's own 'None' entry (or its empty-name rule) "
+                      "hides it, options %s for %d modes; it cannot be chosen and is not preselected when DEFAULT"
+                      % (s0, c0["cname"], c0["mode"], obs["options"], len(modes))))
+    if kclash and fms:
+        lost = [(s, c) for s, c in healthy if ident(s, c) not in list(modes.values())]
+        if lost:
+            s0, c0 = lost[0]
+            v.append((FP_CLASH, "FMS attached: healthy mode %s.%s (%r) is not offered, its entry was overwritten by a "
+                      "duplicate stored under the artificial key <class>_<file>" % (s0, c0["cname"], c0["mode"])))
     if not dup and not clash:
         wantm = {c["mode"]: ident(s, c) for s, c in healthy}
         if modes != wantm:
@@ -971,13 +992,14 @@ def oracle_lifecycle(obs, modes):
 # the check
 
 def load_corpus():
+    """[(file name, case)]"""
     d = os.path.join(CORPUS, PID)
     out = []
     if os.path.isdir(d):
         for n in sorted(os.listdir(d)):
             if n.endswith(".json"):
                 try:
-                    out.append(json.load(open(os.path.join(d, n)))["case"])
+                    out.append((n, json.load(open(os.path.join(d, n)))["case"]))
                 except Exception:
                     pass
     return out
@@ -1069,7 +1091,8 @@ def run(ctx):
     base = os.path.join(ctx.work, "pk")
     total = 400 if ctx.tier == "quick" else 6000
     jobs = 8 if ctx.tier == "quick" else 16
-    cases = load_corpus()
+    corpus = load_corpus()
+    cases = [c for _, c in corpus]
     ncorpus = len(cases)
     cases += edge_cases(base, 0)
     while len(cases) < total:
@@ -1132,14 +1155,27 @@ def run(ctx):
         "exhaustive": False,
     })
 
-    def search():
-        return search_violation(ctx, base, bad, cases, obs)
+    # the witnesses of the open known findings are replayed on every run
+    known = []
+    for k, (n, c) in enumerate(corpus):
+        if n in WITNESSES and not obs[k].get("harness_error"):
+            kv = violation_of(c, obs[k], base, known=True)
+            if kv:
+                kv["witness"] = "corpus/%s/%s" % (PID, n)
+                known.append(kv)
+    ctx.coverage["known_finding_witnesses_still_failing"] = [kv["fingerprint"] for kv in known]
+    found = []
+    if ctx.broken():
+        try:
+            found = search_violation(ctx, base, bad, cases, obs) or []
+        except Exception as e:      # the search must never hide the broken obligation
+            ctx.coverage["search_error"] = repr(e)
+    return ctx.finish(oracle_violations=known + found)
 
-    return ctx.finish(search=search)
 
-
-def violation_of(case, obs, base):
-    vs = oracle(case, obs, base)
+def violation_of(case, obs, base, known=False):
+    """first violation of the property on this observation; the open known findings only when asked for"""
+    vs = [x for x in oracle(case, obs, base) if (x[0] in KNOWN_FPS) == known]
     if not vs:
         return None
     fp, text = vs[0]
